@@ -1,11 +1,18 @@
 #!/bin/bash
 # usage: tools/sweep_seeded.sh [rig|repo]   re-runs every seeded change against the quick check of its own property
 # (rig: scratch copies under /tmp/rig, default; repo: applies to /repo and restores). Writes seeded/RESULTS.txt.
+# optional: SWEEP_PART=k/n runs every n-th change starting at k (parallel sweeps with RIG=/tmp/rig<k>), writing
+# seeded/RESULTS.part<k>; merge with: sort -V seeded/RESULTS.part* > ...
 MODE=${1:-rig}
 cd /verif
 OUT=seeded/RESULTS.txt
+PART=${SWEEP_PART:-}
+if [ -n "$PART" ]; then K=${PART%/*}; N=${PART#*/}; OUT=seeded/RESULTS.part$K; fi
 echo "# seeded change -> quick check of its property ($MODE mode, $(git -C /repo log --format=%h -1) + patch); exit 1 = reported" > $OUT.new
-for d in seeded/C*-*/; do
+idx=0
+for d in $(ls -d seeded/C*-*/ | sort -V); do
+  idx=$((idx+1))
+  if [ -n "$PART" ] && [ $(( (idx - 1) % N )) -ne $(( K - 1 )) ]; then continue; fi
   id=$(basename $d); prop=${id%%-*}
   if [ "$MODE" = rig ]; then r=$(tools/rig_seeded.sh $d/patch.diff quick $prop 2>&1); else r=$(tools/try_seeded.sh $d/patch.diff quick $prop 2>&1); fi
   code=$(echo "$r" | grep -E "^== $prop exit=" | sed 's/.*exit=//')
